@@ -57,7 +57,7 @@ PROPS = {
         'partial': "the real-time firing of the ticker ('plus one cleanup interval') is not modelled: ticks are labels; the listing invariant and the reclamation theorems are proved for collision-free runs (every conflict hash 0); an item written before a cleanup, already due at it and admitted only afterwards is reclaimed by the next cleanup (hypothesis no_stale_admission of C05_listings_stay_later_than_the_last_cleanup)",
     },
     'C09': {
-        'suites': [('cachet', 300, 3000, ''), ('cacheq', 100, 1000, ''), ('cacheqa', 100, 1000, '')],
+        'suites': [('cachet', 300, 3000, ''), ('cacheq', 100, 1000, ''), ('cacheqa', 100, 1000, ''), ('defaults', 1, 1, '')],
         'rule': CACHE_RULE % "Cache and AsyncCache" + "validators {always, never, new > old, new mod 3 != old mod 3}, insert_if_present on absent / removed / expired-unswept / still-buffered keys; monitor: insert_if_present on a non-resident key leaves the snapshot bit-for-bit unchanged",
         'assumptions': COMMON_ASSUMPTIONS,
         'partial': "",
@@ -81,13 +81,13 @@ PROPS = {
         'partial': "async flavour: close() returns once the stop message is buffered; that the processor then takes it needs fairness of select! (the theorem is: exited or the stop message is pending); OS thread exit and the exit of workers when every handle is dropped without close() are runtime behaviour (observed by the harness), not theorems",
     },
     'C16': {
-        'suites': [('cachet', 400, 4000, ''), ('cacheqa', 150, 1500, '')],
+        'suites': [('cachet', 400, 4000, ''), ('cacheqa', 150, 1500, ''), ('defaults', 1, 1, '')],
         'rule': CACHE_RULE % "Cache and AsyncCache" + "explicit costs including 0, costers {0, v mod 5 + 1, 7}, both ignore_internal_cost settings (item_size read through the facade), evictions, rejections, sweeps; monitors: charge of a resident value = cost (or coster) + overhead, callback costs equal that",
         'assumptions': COMMON_ASSUMPTIONS + ["quiescence between writes to one key (the property's quantifier); a vetoed plain insert still re-charges the key (upstream behaviour, outside the quantifier)"],
         'partial': "",
     },
     'C18': {
-        'suites': [('cachec', 300, 3000, ''), ('keys', 1, 1, '')],
+        'suites': [('cachec', 300, 3000, ''), ('keys', 1, 1, ''), ('defaults', 1, 1, '')],
         'rule': CACHE_RULE % "Cache" + "a key builder that lets histories force index collisions (same index, conflict 1 / 2 / wildcard 0); monitor: a lookup never returns a value written under the other conflict; plus the 'keys' suite: TransparentKeyBuilder on every supported integer type (boundary, negative, random values) against the model, DefaultKeyBuilder determinism and String/&str agreement (tested, not modelled)",
         'assumptions': COMMON_ASSUMPTIONS + ["DefaultKeyBuilder (seahash + seeded xxh64) and std::hash are not modelled: determinism and borrowed-form agreement are tested by the harness"],
         'partial': "determinism of DefaultKeyBuilder is a test of an unmodelled function",
@@ -99,7 +99,7 @@ PROPS = {
         'partial': "",
     },
     'C20': {
-        'suites': [('cachecfg', 400, 4000, ''), ('sketch', 150, 1500, ''), ('bloom', 150, 1500, ''), ('keys', 1, 1, ''), ('ticker', 1, 1, '')],
+        'suites': [('cachecfg', 400, 4000, ''), ('sketch', 150, 1500, ''), ('bloom', 150, 1500, ''), ('keys', 1, 1, ''), ('ticker', 1, 1, ''), ('defaults', 1, 1, '')],
         'rule': CACHE_RULE % "Cache and AsyncCache" + "configurations drawn from num_counters {1..70, 127, 129, 1000}, max_cost {-5, 1, 2, 57, 100, 300}, insert buffer {1, 2, 3, 16}, buffer_items {0, 1, 2, 3, 64}, metrics on/off, ignore_internal_cost on/off, both flavours, followed by inserts (with TTL), lookups, removes, ticks, evictions, clear, close; any panic in a client call or in a worker is caught by the harness (catch_unwind in every actor) and reported; a worker that died shows up as a state divergence or a stuck client; plus the builder's validation (keys suite: zero num_counters / max_cost / buffer size in every combination, on both builders) and sketch/doorkeeper construction for widths 0..70, 127, 129, 1000",
         'assumptions': COMMON_ASSUMPTIONS + ["the clock is monotone (SystemTime going backwards makes Time::elapsed panic: outside the property's quantifier)", "key hashes are u64", "doorkeeper sizing: probes * 2^ceil(log2(max(entries,512))) <= 2^64, i.e. the filter fits in memory"],
         'partial': "'any positive cleanup interval': the ticker is a label in the model and a controllable channel in the cache suites; the real timers are exercised by the suite ticker for two intervals only (a measurement with loose bounds, not a theorem); memory exhaustion for huge num_counters is outside the model",
@@ -123,7 +123,7 @@ PROPS = {
         'partial': "'any executor supplied as spawner' is runtime behaviour: one spawner (thread per task, block_on) is exercised, with every polling order of the two background tasks at yield-point granularity; 'satisfies every property above' holds because the theorems of C01-C18, C20 are proved for the one transition function that serves both flavours",
     },
     'C02': {
-        'suites': [('caches', 400, 4000, ''), ('cachesa', 200, 2000, ''), ('cacheq', 150, 1500, ''), ('cachet', 150, 1500, ''), ('cachec', 100, 1000, '')],
+        'suites': [('caches', 400, 4000, ''), ('cachesa', 200, 2000, ''), ('cacheq', 150, 1500, ''), ('cachet', 150, 1500, ''), ('cachec', 100, 1000, ''), ('defaults', 1, 1, '')],
         'rule': CACHE_RULE % "Cache and AsyncCache" + "three client threads writing, removing, clearing and looking up the same 3-7 keys with every write carrying a unique value, parked at every yield point (between the store update and the buffer send, between policy.add and store.try_insert, before each victim, inside the sweep), evictions, expiry, clear and close racing; monitors: a lookup returned a value written under another key / a value nobody wrote, a lookup returned a value handed to a callback earlier, a value inserted before a completed clear() is retrievable after it, and in quiescent profiles (cacheq, cachet) the oracle of writes: a lookup returns exactly the last value written with its remaining TTL",
         'assumptions': COMMON_ASSUMPTIONS + ["'never rolled back' is proved for collision-free runs (every conflict hash 0, as with TransparentKeyBuilder; with colliding keys see known finding D9); 'values belong to their key' is proved for every run, index = key"],
         'partial': "'never a value written before the latest remove(k) that had taken effect' is proved in two halves — remove() takes the entry out in its first step, and a resident value is only ever replaced by a later client write to that key — plus the clear() theorem of C11; the exact-last-value clause at quiescence is decided by the oracle monitor on the implementation and the state-by-state correspondence, its refinement theorem is C04's",
